@@ -16,6 +16,7 @@ import re
 import resource
 import subprocess
 
+import gen_store
 import vlib
 from gens import store as G
 from vlib import shrink_list
@@ -29,6 +30,9 @@ STOPNAME = {"Solution": "solution", "Mix": "mix", "Pure phase assemblage": "pp",
 RE_NOTFOUND = re.compile(r"^ERROR: (Solution|Mix|Pure phase assemblage|Reaction|Exchange|Kinetics|Surface|Temperature|"
                          r"Pressure|Gas_phase|ss_assemblage) (-?\d+) not found\.$")
 RE_INIT = re.compile(r"^ERROR: Solution not found for initial (exchange|surface) calculation")
+RE_NEVER = re.compile(r"Unknown input reading (DELETE|RUN_CELLS|DUMP)|Expected single number or range|Dump entity type not defined|"
+                      r"Expecting keyword solution|Unknown item in USE|Source index number|Target index number|Unknown input in COPY")
+RE_INITGAS = re.compile(r"^ERROR: Solution needed for calculation not found, stopping\.")
 RE_MIXMISSING = re.compile(r"^ERROR: Mix solution not found, (-?\d+)\.$")
 RE_INPUTERR = re.compile(r"^ERROR: Calculations terminating due to input errors\.")
 RE_BENIGN = re.compile(r"not found in mix_cxxSolutions|^ERROR: Program terminating due to input errors\.")
@@ -247,13 +251,15 @@ def run_model(ctx, histories, templates, cfg):
                     hi += 1
                 cur, cnt = [], 0
                 res.append(cur)
-            obs = {"stop": None if w[1] == "ok" else w[2:], "E": [], "T": {}}
+            obs = {"stop": None if w[1] == "ok" else w[2:], "E": [], "H": [], "T": {}}
             cur.append(obs)
             cnt += 1
         elif w[0] == "F":
             obs["fstop"] = None if w[1] == "ok" else w[2:]
         elif w[0] == "E":
             obs["E"].append((w[1], int(w[2]), int(w[3])))
+        elif w[0] == "H":
+            obs["H"].append((w[1], int(w[2]), int(w[3])))
         elif w[0] == "T":
             obs["T"][int(w[1])] = w[2:]
         elif w[0].startswith("bad-op"):
@@ -275,6 +281,9 @@ def classify_errors(err):
         if m:
             stop = stop or ["init", m.group(1)]
             continue
+        if RE_INITGAS.match(ln):
+            stop = stop or ["init", "gas"]
+            continue
         m = RE_MIXMISSING.match(ln)
         if m:
             stop = stop or ["mixmissing", m.group(1)]
@@ -295,6 +304,7 @@ class Judge:
         self.phases = phases
         self.memo = {}        # token -> (kind, desc, lines)
         self.rawmemo = {}
+        self.elems = {}       # token -> elements read from its dump text
         self.prov = {}        # token -> provenance words
         self.blocks = blocks_by_id
         self.stats = {"entries": 0, "memo_hits": 0, "mod_checked": 0, "comp_checked": 0, "stops": 0}
@@ -323,6 +333,10 @@ class Judge:
         """returns None (agree), ('unjudged', why) or ('bad', what)"""
         self.prov.update(mod["T"])
         stop, other = classify_errors(eng["err"])
+        never = [ln for ln in other if RE_NEVER.search(ln)]
+        if never:
+            # every option and number written by the generator resolves in the model (resolveDelLine / resolveCells)
+            return ("bad", f"call {ci}: the engine rejects input that the option tables accept: {never[0][:160]}")
         if other:
             return ("unjudged", other[0][:120])
         mstop = mod["stop"]
@@ -380,6 +394,7 @@ class Judge:
                         return ("bad", f"call {ci}: " + e)
         if not stop and not stop2 and "comps" in eng:
             comps = set(eng["comps"])
+            self.measure_components(comps, ents, mod)
             for k, n, desc, lines in ents:
                 els = entry_elements(k, lines, self.phases) - {"H", "O", "E", "X", "Charge", "Alkalinity"}
                 els = {e for e in els if not e.startswith("Hfo")}
@@ -387,6 +402,35 @@ class Judge:
                 if not els <= comps:
                     return ("bad", f"call {ci}: component list {sorted(comps)} misses {sorted(els - comps)} present in {k} {n}")
         return None
+
+    def measure_components(self, comps, ents, mod):
+        """Not a requirement of the property (which asks for a superset) — a measurement of what the code does: is the
+        reported list exactly the union over every stored entry, including the ones filed under negative numbers that
+        DUMP never shows (copy_use(-2) leaves a copy of every used reactant under -2, and DELETE of the visible entry
+        does not remove that copy)?"""
+        def clean(els):
+            return {e for e in els - {"H", "O", "E", "X", "Charge", "Alkalinity"} if not e.startswith("Hfo")}
+        for (k, n, _, lines), (_, _, tok) in zip(ents, mod["E"]):
+            self.elems[tok] = clean(entry_elements(k, lines, self.phases))
+        vis = set()
+        for _, _, tok in mod["E"]:
+            vis |= self.elems[tok]
+        hid, unknown = set(), False
+        for k, n, tok in mod["H"]:
+            if tok in self.elems:
+                hid |= self.elems[tok]
+            else:
+                unknown = True
+        st = self.stats
+        st["comp_calls"] = st.get("comp_calls", 0) + 1
+        if comps == vis:
+            st["comp_exact_visible"] = st.get("comp_exact_visible", 0) + 1
+        elif comps - vis and comps <= vis | hid:
+            st["comp_extra_from_hidden_negative_numbers"] = st.get("comp_extra_from_hidden_negative_numbers", 0) + 1
+        elif unknown:
+            st["comp_extra_hidden_content_unknown"] = st.get("comp_extra_hidden_content_unknown", 0) + 1
+        else:
+            st["comp_extra_unexplained"] = st.get("comp_extra_unexplained", 0) + 1
 
     def check_modify(self, k, n, tok, p, lines):
         blk = self.blocks.get(int(p[3]))
@@ -654,6 +698,48 @@ def probe_crash_findings(ctx, exe, db):
             ctx.finding(key, f"engine process died (exit {r.returncode}) in call {done}: {what}", {"calls": calls, "crash": key})
 
 
+def probe_reserved_numbers(ctx, exe, db):
+    """The numbers the engine itself files entities under (friend access to the maps): after a batch reaction that uses
+    every kind (two reaction steps, kinetics, mix) and a RUN_CELLS, the negative keys must lie in gens.store.RESERVED —
+    the generator keeps user numbers away from exactly these. Second part: a user entity filed under -2 is overwritten
+    by the next batch reaction (reserved = not a user number), and the component list after DELETE still carries the
+    elements of the scratch entries."""
+    ids = iter(range(1, 99))
+    sim = [{"op": "def", "kind": k, "n": 1, "m": None, "id": next(ids), "item": 1} for k in G.KINDS if k != "mix"]
+    sim.append({"op": "def", "kind": "solution", "n": 2, "m": None, "id": next(ids), "item": 0})
+    sim.append({"op": "def", "kind": "mix", "n": 1, "m": None, "id": next(ids), "item": 0, "comps": [(1, 0.5), (2, 0.5)]})
+    sim.append({"op": "save", "kind": "solution", "n": 3, "m": None})
+    t1, t2 = G.render_sim(sim, {}), G.render_sim([{"op": "cells", "opt": "cells", "toks": [[1]]}], {})
+    lines = ["new " + hx(str(db)), "run " + hx(G.PREAMBLE), "run " + hx(t1), "neg", "run " + hx(t2), "neg"]
+    r = subprocess.run([str(exe)], input="\n".join(lines) + "\n", text=True, capture_output=True, timeout=120)
+    used = set()
+    for ln in r.stdout.splitlines():
+        if ln.startswith("G"):
+            for w in ln.split()[1:]:
+                used |= {int(x) for x in w.split(":")[1].split(",") if x}
+    ctx.cov["engine_scratch_numbers_seen"] = sorted(used)
+    if not used or not used <= G.RESERVED:
+        ctx.violation(f"the engine files entities under {sorted(used)}; the reserved set assumed by the generator is {sorted(G.RESERVED)}",
+                      {"calls": [t1, t2], "seen": sorted(used)}, found_input=False)
+    # a user solution under -2 does not survive a batch reaction; components after DELETE
+    c1 = "SOLUTION -2 mine\n pH 7\n K 1\n Cl 1\nEND\n"
+    c2 = "SOLUTION 1 D1\n pH 7\n Na 1\n Cl 1\nEQUILIBRIUM_PHASES 1 D2\n Calcite 0 0.01\nEND\n"
+    c3 = "COPY solution -2 9\nEND\n"
+    c4 = "DELETE\n -solution 1 9\n -equilibrium_phases 1\nEND\n"
+    c5 = "DELETE\n -all\nEND\n"
+    lines = ["new " + hx(str(db))] + ["run " + hx(t) for t in (c1, c2, c3, c4, c5)]
+    r = subprocess.run([str(exe)], input="\n".join(lines) + "\n", text=True, capture_output=True, timeout=120)
+    dumps = [unhx(ln.split(" ")[1]) for ln in r.stdout.splitlines() if ln.startswith("D ")]
+    comps = [ln.split()[2:] for ln in r.stdout.splitlines() if ln.startswith("C ")]
+    if len(dumps) == 5:
+        d9 = [d for k, n, d, _ in split_dump(dumps[2]) if (k, n) == ("solution", 9)]
+        ctx.cov["reserved_minus2_after_reaction"] = {"user_description": "mine", "description_found_under_-2": d9}
+        ctx.cov["component_list_after_delete"] = {
+            "after reaction (solution 1 Na Cl + Calcite)": comps[1],
+            "after DELETE of every visible entry (dump: %s)" % [(k, n) for k, n, _, _ in split_dump(dumps[3])]: comps[3],
+            "after DELETE -all (clears the maps, scratch numbers included)": comps[4]}
+
+
 # ------------------------------------------------------------------------------------------------ main
 def check_chunk(ctx, exe, db, phases, templates, cfg, chunk):
     eng, crashed, errtail = run_engine(exe, db, chunk, templates)
@@ -710,11 +796,12 @@ def hist_stats(h, hist):
 
 def run(ctx):
     try:
-        facts = source_facts()
-        ctx.cov["source_facts"] = facts
+        facts = gen_store.generate(ctx)
+        source_facts()
+        ctx.cov["source_facts"] = {k: facts[k] for k in ("do_run", "copy_loop", "saver", "bin_vopts", "bin_cases")}
         facts_ok = True
     except Exception as e:       # code shape not recognised: protocol P
-        facts, facts_ok = {"copy_loop": "sizet"}, False
+        facts, facts_ok = {"copy_loop": "int"}, False
         ctx.proof_broken.append({"stage": "translator", "error": str(e)})
         ctx.log("translator failed:", e)
     ok = ctx.prove(["PhreeqcVerif.Properties.C14"]) and facts_ok
@@ -734,7 +821,9 @@ def run(ctx):
         hist_stats(h, hist)
     nchunk = max(1, min(len(hists) // 4, vlib.NCPU * 2))
     chunks = [hists[i::nchunk] for i in range(nchunk)]
-    totals = {"entries": 0, "memo_hits": 0, "mod_checked": 0, "comp_checked": 0, "stops": 0, "viscosity_rewritten": 0}
+    totals = {"entries": 0, "memo_hits": 0, "mod_checked": 0, "comp_checked": 0, "stops": 0, "viscosity_rewritten": 0,
+              "comp_calls": 0, "comp_exact_visible": 0, "comp_extra_from_hidden_negative_numbers": 0,
+              "comp_extra_hidden_content_unknown": 0, "comp_extra_unexplained": 0}
     unjudged, judged_calls, bad, found = {}, 0, None, {}
     with concurrent.futures.ThreadPoolExecutor(max_workers=vlib.NCPU) as ex:
         futs = [ex.submit(check_chunk, ctx, exe, db, phases, templates, cfg, c) for c in chunks]
@@ -787,6 +876,7 @@ def run(ctx):
                               {"runcells_case": case, "result": res})
     probe_copy_findings(ctx, exe, db, facts)
     probe_crash_findings(ctx, exe, db)
+    probe_reserved_numbers(ctx, exe, db)
     if hists:
         ctx.sample({"calls": [G.render_run(r_, templates) for r_ in hists[0][:2]]})
         ctx.sample({"model_lines": G.model_lines(hists[0][:2], templates, cfg)[:12]})
